@@ -301,6 +301,42 @@ def scenario(rng, T, roots, gated, plan, tag='wt'):
                     known.append(('KF1-change-during-own-build', text))
                 else:
                     bad('C06', text)
+        # freshness at quiescence (C06: "re-run by an execution that started ... after its dependencies finished their own
+        # re-run"; the theorem is C06_settled_run_saw_latest_through_aggregates): in zinoma's own log, the last time t was gone
+        # through (`Building`, `Build skipped`, `Starting service`) comes after the last completion (`Build success`,
+        # `Build skipped`) of every build it depends on, directly or through aggregates — unless t is blocked by a failure
+        errf.flush(); errf.seek(0)
+        zlog = errf.read().splitlines()
+
+        def last_line(t, kinds):
+            best = -1
+            for i, l in enumerate(zlog):
+                for k in kinds:
+                    if (' %s - %s' % (t, k)) in l:
+                        best = i
+            return best
+
+        def build_deps(t, seen=None):
+            out = set()
+            for x in T[t]['producers'] + T[t]['deps']:
+                if T[x]['kind'] == 'build':
+                    out.add(x)
+                elif T[x]['kind'] == 'aggregate':
+                    out |= build_deps(x)
+            return out
+        for t in sorted(clo):
+            if T[t]['kind'] == 'aggregate' or proj.bad.get(t) or any(proj.bad.get(x) for x in closure(T, [t]) - {t}):
+                continue
+            lp = last_line(t, ['Building', 'Build skipped', 'Starting service'])
+            for dd in sorted(build_deps(t)):
+                ld = last_line(dd, ['Build success', 'Build skipped'])
+                if lp >= 0 and ld > lp:
+                    text = ('at quiescence the last execution of %s (zinoma log line %d) started BEFORE the last completion of its '
+                            'dependency %s (line %d): it was not re-run after its dependency finished its own re-run' % (t, lp, dd, ld))
+                    if absorbed_during_own_run(proj, T, tr, t):
+                        known.append(('KF1-change-during-own-build', text))
+                    else:
+                        bad('C06', text)
         # C11 in watch mode: a restarted service never overlaps with its previous instance
         for t in sorted(clo):
             if T[t]['kind'] == 'service':
